@@ -113,6 +113,15 @@ CLAIMS = {
         note=TB + "csv_core is third-party code modelled by Core/Csv.lean; dialect/header/type inference rules are re-implemented in the driver (tools/c17.py) from dialect.rs/schema.rs; timestamp inference is a TODO in the engine.",
         technique="Lean proof (chunk independence of the record decoder) + decoder-level correspondence + model-based read_csv oracle",
         design="5/C17"),
+    "C10": dict(
+        text=("Props/C10.lean about Core/Rle.lean (resumable model of RleBitPackedDecoder::read / read_next, bit_unpack and read_unsigned_vlq over an explicit byte cursor): readN_add and chunked_read - reading "
+              "m+n values equals reading m then n, hence any sequence of batch sizes yields the same values and final state (splits mid RLE run, mid bit-packed group, at non-zero bit positions; induction, "
+              "unbounded); readN returns exactly n values; a truncated stream is reported, not over-read. Tie: 3000 valid hybrid streams (bit widths 0..32) through the real decoder in random chunk sizes vs the "
+              "encoded values and the model; the 53 Parquet files of /repo/testdata under random (batch_size, partitions) vs batch_size 2048, row counts vs a thrift footer reader, metadata table functions across batch sizes and vs the footer."),
+        note=TB + "no Parquet writer exists offline: file-level coverage is limited to the encodings of the 53 testdata files (PLAIN, dictionary, RLE; v1 pages; single row group); DELTA_*/BYTE_STREAM_SPLIT decoders, "
+             "page/row-group splits and the thrift parser are not modelled; the driver's minimal footer reader is a trusted oracle.",
+        technique="Lean proof (batch-split independence of the resumable RLE/bit-packed decoder) + decoder correspondence + batch-size metamorphic reads of real files",
+        design="5/C10"),
 }
 
 NOT_YET = {
